@@ -32,6 +32,14 @@ import FianoModel.TightenMe.TreeAsm
 import FianoModel.TightenMe.TreeExample
 import FianoModel.TightenMe.TreeParse
 import FianoModel.TightenMe.TreeMore
+import FianoModel.TightenMe.SortStable
+import FianoModel.TightenMe.LargeMem
+import FianoModel.TightenMe.ProbeStart
+import FianoModel.TightenMe.GrammarTight
+import FianoModel.TightenMe.ProbeImage
+import FianoModel.TightenMe.ReparseOk
+import FianoModel.TightenMe.ReparseSave
+import FianoModel.Props.C01   -- only for the sample grammar element of the non-vacuity example in C12.14
 import FianoModel.Uefi.Guid
 import FianoModel.TightenMe.Example
 import FianoModel.TightenMe.Tie
@@ -695,6 +703,354 @@ example : ∃ f' g st1, TWF (some [⟨0x40, 0x1000⟩]) 0x1040 exTree ∧ tighte
   obtain ⟨f', h1⟩ := exTree_tightens
   obtain ⟨g, st1, h2⟩ := exTree_saves
   exact ⟨f', g, st1, exTree_twf, h1, h2⟩
+
+
+/-! ## C12.11 the order of equal keys in Assemble's sort (follow-up wp-c12c, task 3)
+
+  `Uefi.sortRegions` (shared model) reverses runs of equal `Base`; Go's insertion sort keeps them.
+  `T.sortRegionsS` is the shared sort with `<` replaced by `≤` in `insertRegion` — the one-character
+  diff proposed for Uefi/Parse.lean (reports/C12-sortRegions-stable.diff, builds with every Props
+  module).  With it the shared FlashImage case IS `asmFlashT`; without it the two agree exactly on the
+  trees without two equal keys — the only reachable counterexample is the empty ME extent. -/
+
+open T in
+/-- the proposed `≤` variant of the shared sort is the stable insertion sort Go runs (no hypothesis) -/
+theorem c12_stable_sort_is_go_sort (l : List Uefi.Region) : sortRegionsS l = isort baseOf l :=
+  sortRegionsS_eq_isort l
+
+open T in
+/-- the shared Assemble with the proposed sort equals `asmFlashT` on every tree and state (no `TWF`,
+    no "no empty region") -/
+theorem c12_tree_assemble_with_stable_sort (h : Uefi.Hooks) (f : Uefi.Flash) (st : Uefi.St) :
+    asmFlashS h f st = asmFlashT h f st :=
+  asmFlashS_eq_asmFlashT h f st
+
+open T in
+/-- where the two sorts differ: on two equal keys the shared sort swaps, Go's does not; on pairwise
+    different keys they agree -/
+theorem c12_sorts_differ_exactly_on_equal_keys :
+    (∀ a b : Uefi.Region, baseOf a = baseOf b →
+      Uefi.sortRegions [a, b] = [b, a] ∧ sortRegionsS [a, b] = [a, b]) ∧
+    (∀ l : List Uefi.Region, l.Pairwise (fun a b => baseOf a < baseOf b) → Uefi.sortRegions l = sortRegionsS l) :=
+  ⟨sortRegions_swaps_equal_keys, sortRegions_eq_sortRegionsS_of_strict⟩
+
+open T in
+/-- **the hypothesis "no region is empty" of `c12_tree_assemble_agrees_with_shared_model` is
+    necessary**: `exEmpty` — what `tighten_me` makes of the example tree when the ME region holds no
+    partition table (`tightenFlash 0 0xFF exTree`) — is well-formed (`TWF`), its ME node has the empty
+    extent `[4096, 4096)` and the same Base as the BIOS node behind it; Go's Assemble (`asmFlashT`; T2:
+    corpus/C12/11 and the generated `ok:shrunk-to-nothing` cases) saves it, the shared `Uefi.asmFlash`
+    answers an error, the shared model with the stable sort saves it. -/
+theorem c12_tree_assemble_disagrees_on_empty_region :
+    tightenFlash 0 0xFF exTree = .ok exEmpty ∧ TWF none 0 exEmpty ∧
+    (exEmpty.regions.map (fun r => (isME r, baseOf r, (r.fr.map (fun fr => (fr.baseOffset, fr.endOffset))),
+      r.buf.length))) = [(true, 1, some (4096, 4096), 0), (false, 1, some (4096, 20480), 4096)] ∧
+    okB (asmFlashT Uefi.Hooks.none exEmpty { pol := 0xFF }) = true ∧
+    okB (Uefi.asmFlash Uefi.Hooks.none exEmpty { pol := 0xFF }) = false ∧
+    okB (asmFlashS Uefi.Hooks.none exEmpty { pol := 0xFF }) = true :=
+  ⟨exEmpty_eq, exEmpty_twf, exEmpty_has_empty_region, exEmpty_disagree.1, exEmpty_disagree.2.1, exEmpty_disagree.2.2⟩
+
+/-! ## C12.12 the in-memory statements for images above 2^28 bytes (follow-up wp-c12c, task 4)
+
+  The tree `uefi.Parse` builds for such an image is a well-formed tree `core` of `m ≤ 2^28` bytes plus
+  ONE last gap region whose private FlashRegion has wrapped fields; `tighten_me` neither reads nor
+  writes that region or the size.  So every theorem above that needs `WF` holds for `core`, and the
+  tree Go holds after `tighten_me` is `core'` with the same gap region appended. -/
+
+/-- **the parsed tree of a large image, wrapped Limit explicit**: `f = ext core gap size` with
+    `WF core`, `core.size = m ≤ 2^28`, the payloads of `core` are the image bytes `[4096, m)`, the gap
+    region is raw, holds `img.drop m`, owns the FlashRegion
+    `{uint16(m/4096), uint16(uint16(size/4096) − 1)}`, whose `EndOffset()` is below the image size. -/
+theorem c12_large_parsed_tree (p0 : Nat) (img : Bytes) (f : Flash) (pol : Nat)
+    (hbig : 2 ^ 28 < img.length) (h63 : img.length < 2 ^ 63) (hp : parseFlash p0 img = .ok (f, pol)) :
+    ∃ core m, f = ext core (gapRegion img m img.length) img.length ∧ core.size = m ∧ WF core ∧
+      m % 4096 = 0 ∧ descLen ≤ m ∧ m ≤ 2 ^ 28 ∧
+      core.regions.flatMap payload = slice img descLen (m - descLen) ∧
+      (gapRegion img m img.length).ref =
+        .own ⟨u16 (m / blockSize), u16 (u16 (img.length / blockSize) + 65535)⟩ ∧
+      (gapRegion img m img.length).body = .raw ∧
+      (gapRegion img m img.length).buf = img.drop m ∧
+      (∀ fr, frOf core.desc.regs (gapRegion img m img.length) = .ok fr → fr.endOff < img.length) :=
+  parse_large p0 img f pol hbig h63 hp
+
+/-- **`tighten_me` on the large tree is `tighten_me` on its well-formed core**: it succeeds on one iff
+    it succeeds on the other, and the results differ by the untouched gap region and the size. -/
+theorem c12_large_tighten_is_core_tighten (pol : Nat) (core : Flash) (x : Region) (n : Nat) (hx : x.body = .raw)
+    (F : Flash) :
+    tighten pol (ext core x n) = .ok F ↔ ∃ core', tighten pol core = .ok core' ∧ F = ext core' x n :=
+  tighten_ext pol core x n hx F
+
+/-- **the boundary formula for images above 2^28 bytes** (`c12_boundary` without `WF`, which fails
+    there): same statement about the tree Go holds before and after `tighten_me`. -/
+theorem c12_large_boundary (p0 : Nat) (img : Bytes) (f F : Flash) (pol : Nat)
+    (hbig : 2 ^ 28 < img.length) (h63 : img.length < 2 ^ 63) (hp : parseFlash p0 img = .ok (f, pol))
+    (h : tighten pol f = .ok F) :
+    ∃ r0 r1 rest mer fpt free,
+      f.desc.regs = r0 :: r1 :: rest ∧ mer ∈ f.regions ∧ mer.body = .me fpt free ∧
+      F.desc.regs = { r0 with base := newBoundary r1.base free } ::
+                    { r1 with limit := newBoundary r1.base free - 1 } :: rest ∧
+      1 ≤ r1.base ∧ r1.limit + 1 = r0.base ∧
+      r1.base * 4096 + free ≤ newBoundary r1.base free * 4096 ∧
+      newBoundary r1.base free * 4096 < r1.base * 4096 + free + 4096 ∧
+      r1.base ≤ newBoundary r1.base free ∧ newBoundary r1.base free ≤ r1.limit + 1 ∧
+      newBoundary r1.base free < 65536 ∧
+      free = (match fpt with | some es => freeOf es | none => 0) ∧
+      (∃ gap, f.regions.getLast? = some gap ∧ F.regions.getLast? = some gap ∧ gap.body = .raw) ∧
+      F.size = f.size := by
+  obtain ⟨core, m, hf, _, w, _, _, _, _, _, hraw, _, _⟩ := parse_large p0 img f pol hbig h63 hp
+  subst hf
+  obtain ⟨core', hc, hF⟩ := (tighten_ext pol core _ img.length hraw F).mp h
+  subst hF
+  obtain ⟨r0, r1, rest, mer, fpt, free, h1, h2, h3, h4, h5⟩ := c12_boundary pol core core' w hc
+  refine ⟨r0, r1, rest, mer, fpt, free, h1, ?_, h3, h4, h5.1, h5.2.1, h5.2.2.1, h5.2.2.2.1, h5.2.2.2.2.1,
+    h5.2.2.2.2.2.1, h5.2.2.2.2.2.2.1, h5.2.2.2.2.2.2.2, ⟨_, ?_, ?_, hraw⟩, rfl⟩
+  · simp only [ext, List.mem_append]; exact Or.inl h2
+  · simp only [ext, List.getLast?_append, List.getLast?_singleton, Option.some_or]
+  · simp only [ext, List.getLast?_append, List.getLast?_singleton, Option.some_or]
+
+/-- `tighten_ext` is not vacuous: the example tree with a raw region appended and a FlashSize above
+    2^28 is tightened exactly like the example tree -/
+example : ∃ F, tighten 0xFF (ext exFlash (gapRegion [] 20480 (2 ^ 28 + 8192)) (2 ^ 28 + 8192)) = .ok F := by
+  obtain ⟨f', h⟩ := exFlash_tightens
+  exact ⟨_, (tighten_ext 0xFF exFlash _ _ rfl _).mpr ⟨f', h, rfl⟩⟩
+
+/-! ## C12.13 does the enlarged BIOS region parse to the expected elements? (follow-up wp-c12c, task 2)
+
+  After `tighten_me` + save the BIOS region of the image is `E ++ X`: `E` the freed ME blocks (erased,
+  a positive multiple of 4096 bytes), `X` the old BIOS region.  `FindFirmwareVolumeOffset` never probed
+  X's offsets 0, 8, 16, 24 and treated a hit at 32 as "no volume"; in `E ++ X` all five are ordinary
+  probes.  `Probe.probeClean X` (decidable: five 4-byte comparisons on the INPUT image) is necessary
+  and sufficient for the enlarged region to parse to the expected elements — the F-C12-probe-start
+  family, characterised. -/
+
+open Probe in
+/-- what is cut off the ME buffer is `Freed`: erased, whole blocks -/
+theorem c12_freed_blocks_are_freed (E : Bytes) (pol : Nat) (her : isErased E pol = true)
+    (h4 : E.length % 4096 = 0) (hne : E ≠ []) : Freed E :=
+  freed_of_erased E pol her h4 (by
+    cases E with
+    | nil => exact absurd rfl hne
+    | cons a t => simp)
+
+open Probe in
+/-- **Clean probes ⇒ expected elements; a dirty probe ⇒ a volume "found" inside the freed blocks.**
+    On the shared parse model (volumes with files and sections included): if the old region `X`
+    parses to `es`, then
+    (1) `probeClean X` ⇒ `E ++ X` parses to `leadMerge E (es shifted by |E|)` — the freed blocks join
+        or become the leading padding, every volume is the same volume `|E|` further on — with the same
+        polarity state;
+    (2) not `probeClean X` ⇒ whatever `E ++ X` parses to (it may also fail) starts with a padding
+        SHORTER than `E` followed by a volume that begins inside the freed blocks (at most 40 bytes
+        before their end);
+    (3) hence `E ++ X` parses to the expected elements IFF `probeClean X`. -/
+theorem c12_bios_reparse_expected_iff (h : Uefi.Hooks) (fuel : Nat) (E X : Bytes) (st st' : Uefi.St)
+    (es : List Uefi.BiosElem) (hE : Freed E) (hp : Uefi.parseBiosElems h fuel X 0 st = .ok (es, st')) :
+    (probeClean X = true →
+      Uefi.parseBiosElems h fuel (E ++ X) 0 st = .ok (leadMerge E (es.map (shiftE E.length)), st')) ∧
+    (probeClean X = false → ∀ es2 st2, Uefi.parseBiosElems h fuel (E ++ X) 0 st = .ok (es2, st2) →
+      ∃ p v r, es2 = .pad p 0 :: .fv v :: r ∧ p.length < E.length ∧ E.length ≤ p.length + 40 ∧
+        v.info.fvOffset = p.length) ∧
+    (Uefi.parseBiosElems h fuel (E ++ X) 0 st = .ok (leadMerge E (es.map (shiftE E.length)), st') ↔
+      probeClean X = true) :=
+  ⟨fun hc => parseBiosElems_prefix_clean h fuel E X st st' es hE hc hp,
+   fun hc es2 st2 h2 => parseBiosElems_prefix_dirty h fuel E X st st2 es2 hE hc h2,
+   reparse_expected_iff h fuel E X st st' es hE hp⟩
+
+open Probe in
+/-- the same for the flash-level model's `parseBios` (the shared loop, flattened by `toElem`): the
+    enlarged region parses to the flattened expected elements iff `probeClean X` -/
+theorem c12_flash_bios_reparse_expected_iff (fuel pol : Nat) (E X : Bytes) (st' : Uefi.St)
+    (es : List Uefi.BiosElem) (hE : Freed E)
+    (hp : Uefi.parseBiosElems Uefi.Hooks.none fuel X 0 { pol := UInt8.ofNat pol } = .ok (es, st')) :
+    parseBios fuel pol (E ++ X) = .ok ((leadMerge E (es.map (shiftE E.length))).map toElem, st'.pol.toNat) ↔
+      probeClean X = true := by
+  constructor
+  · intro h2
+    cases hc : probeClean X with
+    | true => rfl
+    | false =>
+      exfalso
+      unfold parseBios at h2
+      cases hq : Uefi.parseBiosElems Uefi.Hooks.none fuel (E ++ X) 0 { pol := UInt8.ofNat pol } with
+      | error e => rw [hq] at h2; cases h2
+      | ok q =>
+        obtain ⟨es2, st2⟩ := q
+        rw [hq] at h2
+        obtain ⟨p, v, r, he, hlt, _, _⟩ := parseBiosElems_prefix_dirty _ fuel E X _ st2 es2 hE hc hq
+        subst he
+        simp only [Except.ok.injEq, Prod.mk.injEq, List.map_cons] at h2
+        have hlead : ∀ l : List Uefi.BiosElem, ∃ b r', leadMerge E l = .pad (E ++ b) 0 :: r' := by
+          intro l
+          match l with
+          | [] => exact ⟨[], [], by simp [leadMerge]⟩
+          | .pad b o :: r' => exact ⟨b, r', rfl⟩
+          | .fv w :: r' => exact ⟨[], .fv w :: r', by simp [leadMerge]⟩
+        obtain ⟨b, r', hb⟩ := hlead (es.map (shiftE E.length))
+        rw [hb] at h2
+        simp only [List.map_cons, toElem, List.cons.injEq, Elem.mk.injEq] at h2
+        have := congrArg List.length h2.1.1.2.2.1
+        simp only [List.length_append] at this
+        omega
+  · intro hc
+    unfold parseBios
+    rw [parseBiosElems_prefix_clean _ fuel E X _ st' es hE hc hp]
+
+open Probe in
+/-- **The predicate on the input image.**  parse, `tighten_me`, save, re-parse in a new process with the
+    same initial polarity state.  `X` = the BIOS extent of the INPUT image, `E` = the input bytes between
+    the new and the old boundary, `es0` = the elements the first parse found in `X`.  If at least one
+    block was freed then `E` is `Freed` (erased whole blocks) and the re-parsed tree has a BIOS node with
+    the expected elements — `leadMerge E (es0 shifted by |E|)`: freed blocks in / as the leading padding,
+    every volume unchanged and `|E|` further on — IFF `biosProbeClean img f.desc`, i.e. iff none of the
+    offsets 0, 8, 16, 24, 32 of the input's BIOS extent shows `_FVH`.  (When the probes are clean the
+    enlarged region itself always parses: `c12_bios_reparse_expected_iff` (1).) -/
+theorem c12_reparse_bios_expected_iff (p0 : Nat) (img : Bytes) (f f' g' t : Flash) (pol pa pa' q : Nat)
+    (hsz : img.length % 4096 = 0) (hlt : img.length ≤ 2 ^ 28)
+    (hp : parseFlash p0 img = .ok (f, pol)) (sane : f.desc.Sane)
+    (ht : tighten pol f = .ok f') (hs : asmFlash pa f' = .ok (g', pa'))
+    (hr : parseFlash p0 g'.buf = .ok (t, q)) :
+    ∃ r0 r1 rest nb es0 st0,
+      f.desc.regs = r0 :: r1 :: rest ∧
+      t.desc.regs = { r0 with base := nb } :: { r1 with limit := nb - 1 } :: rest ∧ nb ≤ r0.base ∧
+      Uefi.parseBiosElems Uefi.Hooks.none (Uefi.defaultFuel img) (slice img r0.baseOff (r0.endOff - r0.baseOff)) 0
+        { pol := UInt8.ofNat p0 } = .ok (es0, st0) ∧
+      (nb < r0.base →
+        Freed (slice img (nb * 4096) (r0.baseOff - nb * 4096)) ∧
+        (slice img (nb * 4096) (r0.baseOff - nb * 4096)).length = (r0.base - nb) * 4096 ∧
+        ((∃ br ∈ t.regions, br.body =
+            .bios ((slice img (nb * 4096) (r0.baseOff - nb * 4096)).length +
+                   (slice img r0.baseOff (r0.endOff - r0.baseOff)).length)
+              ((leadMerge (slice img (nb * 4096) (r0.baseOff - nb * 4096))
+                (es0.map (shiftE (slice img (nb * 4096) (r0.baseOff - nb * 4096)).length))).map toElem)) ↔
+          biosProbeClean img f.desc = true)) :=
+  reparse_bios_expected_iff p0 img f f' g' t pol pa pa' q hsz hlt hp sane ht hs hr
+
+/-- **The only thing that can fail when the saved image is loaded again is `NewBIOSRegion` on the
+    enlarged BIOS extent.**  parse, `tighten_me`, save: if `parseBios` accepts the INPUT image's bytes at
+    the new BIOS extent (slot 0 of the rewritten table), `uefi.Parse` accepts the saved image (same initial
+    polarity state): the regenerated descriptor parses (`Desc.Sane`), the BIOS slot stays valid, no other
+    slot of the region loop can fail, and `fillRegionGaps` succeeds because the extents selected from the
+    rewritten table are still pairwise disjoint. -/
+theorem c12_saved_image_parses (p0 : Nat) (img : Bytes) (f f' g' : Flash) (pol pa pa' : Nat)
+    (hsz : img.length % 4096 = 0) (hlt : img.length ≤ 2 ^ 28)
+    (hp : parseFlash p0 img = .ok (f, pol)) (sane : f.desc.Sane)
+    (ht : tighten pol f = .ok f') (hs : asmFlash pa f' = .ok (g', pa'))
+    (r0' : FRegion) (tl' : List FRegion) (hregs' : f'.desc.regs = r0' :: tl')
+    (els : List Elem) (p' : Nat)
+    (hb : parseBios (Uefi.defaultFuel img) p0 (slice img r0'.baseOff (r0'.endOff - r0'.baseOff)) = .ok (els, p')) :
+    ∃ t q, parseFlash p0 g'.buf = .ok (t, q) :=
+  saved_image_parses p0 img f f' g' pol pa pa' hsz hlt hp sane ht hs r0' tl' hregs' els p' hb
+
+/-- **Clean probes ⇒ the image saved after `tighten_me` parses again** (whether blocks were freed or
+    not; same initial polarity state as the first parse, i.e. a fresh process both times).  With
+    `c12_reparse_bios_expected_iff` (whenever it parses: expected BIOS elements ⇔ clean) this is the
+    characterisation asked for: when at least one block was freed, the saved image parses AND has the
+    expected BIOS elements iff `biosProbeClean img f.desc`. -/
+theorem c12_saved_image_parses_when_clean (p0 : Nat) (img : Bytes) (f f' g' : Flash) (pol pa pa' : Nat)
+    (hsz : img.length % 4096 = 0) (hlt : img.length ≤ 2 ^ 28)
+    (hp : parseFlash p0 img = .ok (f, pol)) (sane : f.desc.Sane)
+    (ht : tighten pol f = .ok f') (hs : asmFlash pa f' = .ok (g', pa'))
+    (hc : biosProbeClean img f.desc = true) :
+    ∃ t q, parseFlash p0 g'.buf = .ok (t, q) :=
+  saved_image_parses_clean p0 img f f' g' pol pa pa' hsz hlt hp sane ht hs hc
+
+/-- **Clean probes: the re-parsed tree can be saved again** with the polarity the second parse left.
+    (`biosPol` only looks at the (polarity, has-files) sequence of the volumes; the re-parsed volumes are
+    the first run's, the first save shows that none has files and that there is a first volume, and the
+    parser leaves the polarity of the volumes it found — shared lemma `Uefi.tp_bioselems`.) -/
+theorem c12_reparsed_tree_saves_when_clean (p0 : Nat) (img : Bytes) (f f' g' t : Flash) (pol pa pa' q : Nat)
+    (hsz : img.length % 4096 = 0) (hlt : img.length ≤ 2 ^ 28)
+    (hp : parseFlash p0 img = .ok (f, pol)) (sane : f.desc.Sane)
+    (ht : tighten pol f = .ok f') (hs : asmFlash pa f' = .ok (g', pa'))
+    (hc : biosProbeClean img f.desc = true) (hr : parseFlash p0 g'.buf = .ok (t, q)) :
+    ∃ s p, asmFlash q t = .ok (s, p) :=
+  reparsed_saves_clean p0 img f f' g' t pol pa pa' q hsz hlt hp sane ht hs hc hr
+
+/-- **The second run for clean images: it succeeds IFF `SecondOk f f'`** — "the saved image can be
+    loaded and saved" is gone from the right-hand side of `c12_second_run_succeeds_iff`: for an input
+    image whose BIOS extent is `biosProbeClean` (five 4-byte comparisons on the input) the image saved
+    after `tighten_me` always loads and can be saved, so `utk SAVED tighten_me save` in a new process
+    succeeds iff the ME region was not shrunk to nothing and its partition table still ends inside it;
+    and if it succeeds it writes the first saved image again, byte for byte.  (Both parses start from
+    the same polarity state `p0`: a fresh process both times.) -/
+theorem c12_second_run_succeeds_iff_clean (p0 : Nat) (img : Bytes) (f f' g' : Flash) (pol pa pa' : Nat)
+    (hsz : img.length % 4096 = 0) (hlt : img.length ≤ 2 ^ 28)
+    (hp : parseFlash p0 img = .ok (f, pol)) (sane : f.desc.Sane)
+    (ht : tighten pol f = .ok f') (hs : asmFlash pa f' = .ok (g', pa'))
+    (hc : biosProbeClean img f.desc = true) :
+    ((∃ s p, secondRun p0 g'.buf = .ok (s, p)) ↔ SecondOk f f') ∧
+    (∀ s p, secondRun p0 g'.buf = .ok (s, p) → s.buf = g'.buf) :=
+  second_run_clean p0 img f f' g' pol pa pa' hsz hlt hp sane ht hs hc
+
+open Probe in
+/-- for a region that holds a volume at all (Assemble saves no other) the probe at 32 is clean by
+    itself: the predicate is about the never-probed offsets 0, 8, 16, 24 -/
+theorem c12_probe_clean_of_volume (X : Bytes) (off : Nat) (h : Uefi.findFvOffset X = some off) :
+    probeClean X = (Uefi.scanSig 4 0 X).isNone :=
+  probeClean_of_volume X off h
+
+/-- the predicate on the input image is inhabited: an image whose BIOS extent (block 4 of the example
+    descriptor) is erased is `biosProbeClean` -/
+example : biosProbeClean (ffs 20480) exFlash.desc = true := by decide +kernel
+
+open Probe in
+/-- both outcomes of `probeClean` occur: an erased region is clean, a region that starts with `_FVH`
+    (offset 0 — never probed while the region starts there) is not -/
+example : probeClean (List.replicate 64 0xFF) = true ∧
+    probeClean ([0x5F, 0x46, 0x56, 0x48] ++ List.replicate 60 0xFF) = false := by decide
+
+
+/-! ## C12.14 volumes with files: the enlarged BIOS region in C01's grammar (follow-up wp-c12c, task 1)
+
+  For an image of C01's reference grammar the image saved after `tighten_me` is the regenerated
+  descriptor followed by the input's own bytes (`c12_tree_save_frame` + C01 `asm_tree`), so its BIOS
+  region is `E ++ serBios b`.  The grammar is closed under that enlargement exactly under
+  `probeClean`, and the enlarged region is a fixed point of parse + save — files, sections, nested
+  volumes and all.  (The flash wrapper of the second run for volumes with files — descriptor and
+  region loop on the tree level — is not proved; see checks.d `unproved`.) -/
+
+open Probe Uefi.Spec in
+/-- **C01's grammar is closed under `tighten_me`'s enlargement of the BIOS region iff the probes are
+    clean**: `enlarge E b` (freed blocks in front of the first padding) serialises to
+    `E ++ serBios b` and is well-formed iff `probeClean (serBios b)`. -/
+theorem c12_grammar_region_closed_iff (E : Bytes) (b : BiosI) (hE : Freed E) (hw : wfBios b = true) :
+    serBios (enlarge E b) = E ++ serBios b ∧
+    (wfBios (enlarge E b) = true ↔ probeClean (serBios b) = true) := by
+  have hne : b.items ≠ [] := by
+    intro h0
+    simp [wfBios, h0] at hw
+  refine ⟨serBios_enlarge E b hne, ?_, fun hc => wfBios_enlarge E b hE hw hc⟩
+  intro h1
+  cases hc : probeClean (serBios b) with
+  | true => rfl
+  | false => rw [wfBios_enlarge_dirty E b hE hne hc] at h1; cases h1
+
+open Probe Uefi.Spec in
+/-- **The saved enlarged region is a fixed point of parse + save, volumes with files included**:
+    `NewBIOSRegion` on `E ++ serBios b` yields the grammar's tree of `enlarge E b` (every file and
+    section as before, every volume `|E|` further on, the freed blocks merged into the leading
+    padding), and Assemble on that tree writes `E ++ serBios b` again. -/
+theorem c12_grammar_enlarged_region_roundtrip (E : Bytes) (b : BiosI) (fr : Option Uefi.FlashRegion)
+    (fuel : Nat) (st : Uefi.St) (hE : Freed E) (hw : wfBios b = true) (hc : probeClean (serBios b) = true)
+    (hf : (E ++ serBios b).length + 1 ≤ fuel) (hp : st.pol = 0xFF ∨ st.pol = 0xF0) :
+    Uefi.parseBios Uefi.Hooks.none fuel (E ++ serBios b) fr st =
+      .ok (treeBios (enlarge E b) fr, { st with pol := 0xFF }) ∧
+    ∃ b' st', Uefi.asmBios Uefi.Hooks.none (treeBios (enlarge E b) fr) { st with pol := 0xFF, ffs3 := false } =
+        .ok (b', st') ∧ b'.buf = E ++ serBios b ∧ b'.fr = fr ∧ st'.pol = 0xFF :=
+  enlarged_region_roundtrip E b fr fuel st hE hw hc hf hp
+
+open Probe Uefi.Spec in
+set_option maxRecDepth 65536 in
+/-- the hypotheses are inhabited: C01's sample region (a volume with sectioned files, a pad file, a RAW
+    file, free space; a second volume of another file system; paddings) is well-formed and clean -/
+example : wfBios ⟨[([], Uefi.C01.sampleFv), (List.replicate 16 0xFF, Uefi.C01.sampleOther)], [1, 2, 3]⟩ = true ∧
+    probeClean (serBios ⟨[([], Uefi.C01.sampleFv), (List.replicate 16 0xFF, Uefi.C01.sampleOther)], [1, 2, 3]⟩) = true := by
+  decide
+
+/-- … and so is `Freed`: a block of erased bytes -/
+example : Probe.Freed (ffs 4096) :=
+  c12_freed_blocks_are_freed _ 0xFF (isErased_ffs _) (by rw [ffs_length])
+    (by intro h; have := congrArg List.length h; rw [ffs_length] at this; cases this)
 
 /-! ## non-vacuity -/
 
